@@ -93,7 +93,7 @@ var c18Fixed = map[string]string{
 	// the apiutil half by the commit above, the constructor by "fix: NewLsTLVOpaquePrefixAttr builds a TLV that cannot be serialised" (codec triage C04)
 	"attr-ls-opaque-prefix-attr-dropped": "fix: apiutil: BGP-LS prefix attribute TLVs are independent of the IGP Flags TLV",
 	// repaired in pkg/packet/bgp by the codec triage (C04): the API -> native direction uses these constructors
-	"attr-ls-ctor-length":             "fix: NewLsTLVLocalIPv6RouterID / NewLsTLVRemoteIPv6RouterID / NewLsTLVSrCapabilities / NewLsTLVSrLocalBlock ... (four commits of C04)",
+	"attr-ls-ctor-length":             "fix: NewLsTLVLocalIPv6RouterID builds a TLV that cannot be serialised (and the three like it: RemoteIPv6RouterID, SrCapabilities, SrLocalBlock)",
 	"attr-ls-peer-adjacency-sid-type": "fix: NewLsTLVPeerAdjacencySID builds an Adjacency SID TLV",
 }
 
